@@ -271,7 +271,7 @@ def check(ctx):
     _check_own(ctx)
     from .engine import import_rules
     # storage-layer integrity rules that the map semantics depend on (corruption of a record, chain or free list changes what get returns)
-    import_rules(ctx, "c05", {"insert-links", "overwrite-links", "delete-links", "bucket-index", "field-position", "count-step", "count-arm", "count-writers"})
+    import_rules(ctx, "c05", {"insert-links", "overwrite-links", "delete-links", "bucket-index", "field-position", "count-step", "count-arm", "count-writers", "stored-length-read", "payload-is-callers-bytes"})
     import_rules(ctx, "c06", {"free-slot-field-position", "no-lost-link-update", "large-pop-conservation", "large-pop", "push-pop-inverse", "alloc", "writer-arms"})
     import_rules(ctx, "c08", {"relink", "abort"})
     import_rules(ctx, "c09", {"sizer-covers-writer", "slot-honoured"})
